@@ -217,6 +217,8 @@ def walk_property(run):
             raise lib.MachineryError("Walk.tla: D_LinkedDirsListed no longer violates C14_NoDangling")
     if pid == "C15":
         walkh.script_entry_case(run)
+    if pid == "C13":
+        regen_layer(run, "cli")
     # binding B: recorded walks over random trees (deeper, more names and patterns than the menus), validated by TLC
     import walktrace
     walktrace.run(run, pid, run.seed, 160 if q else 3000)
@@ -259,6 +261,7 @@ def c12(run):
         run.add_tlc("MC_C12(Dev=Current)", res)
     naming.replay(run, res.lines.get("BEH", []), run.seed, limit=2500 if q else 60000)
     naming.case_collision(run)
+    regen_layer(run, "cli")       # titles follow the settings of THIS run, also into an output directory of an earlier one
     # settings shared between the inputs of one command line would violate C12_Names (witness that the invariant bites)
     res0 = lib.run_tlc("MC_C12", C12_CFG.format(dev="SharedSettings", invs="INVARIANT C12_Names"), want_violation=True, coverage=False)
     if not res0.violated:
@@ -346,6 +349,24 @@ def c17(run):
             "generated file is compared byte for byte with the canonical run of each input alone")
 
 
+GEN_CFG_T = "CONSTANT Dev <- {dev}\nCONSTANT MaxSteps = {n}\nCONSTANT Blind <- {blind}\nINIT Init\nNEXT Next\nINVARIANT C19_TreeIsCurrent\nINVARIANT Emit\n"
+
+
+def regen_layer(run, route):
+    """GenRst.tla: repeated generation on one build tree with edits in between - through cminx_gen_rst (route "cmake",
+    C19) or by running the command line again into the same output directory (route "cli": C13, C12, C01)"""
+    import runsh
+    q = run.tier == "quick"
+    n = 3 if q else (5 if route == "cmake" else 4)
+    res2 = lib.run_tlc("MC_GenRst", GEN_CFG_T.format(dev="NoDev", n=n, blind="NoBlind"))
+    run.add_tlc("MC_GenRst(steps<=%d, route %s)" % (n, route), res2)
+    runsh.replay_genrst(run, res2.lines.get("BEH", []), route)
+    blind = "BlindUpperSettings" if route == "cmake" else "BlindSettingsBackdated"
+    res0 = lib.run_tlc("MC_GenRst", GEN_CFG_T.format(dev="Stamp", n=3, blind=blind), want_violation=True, coverage=False)
+    if not res0.violated:
+        raise lib.MachineryError("GenRst.tla: a generator that skips work on an unchanged fingerprint no longer violates C19_TreeIsCurrent")
+
+
 def c19(run):
     import runsh
     res = lib.run_tlc("MC_Runs", RUNS_CFG.format(maxin=1).replace("INVARIANT Emit\n", ""), tags=("BEH", "GEN"))
@@ -354,13 +375,7 @@ def c19(run):
     runsh.replay_c19(run, cases)
     # over time (GenRst.tla): edits of sources / settings file and deleted pages between repeated calls
     q = run.tier == "quick"
-    gcfg = "CONSTANT Dev <- {dev}\nCONSTANT MaxSteps = {n}\nCONSTANT Blind <- {blind}\nINIT Init\nNEXT Next\nINVARIANT C19_TreeIsCurrent\nINVARIANT Emit\n"
-    res2 = lib.run_tlc("MC_GenRst", gcfg.format(dev="NoDev", n=3 if q else 5, blind="NoBlind"))
-    run.add_tlc("MC_GenRst(steps<=%d)" % (3 if q else 5), res2)
-    runsh.replay_genrst(run, res2.lines.get("BEH", []))
-    res0 = lib.run_tlc("MC_GenRst", gcfg.format(dev="Stamp", n=3, blind="BlindUpperSettings"), want_violation=True, coverage=False)
-    if not res0.violated:
-        raise lib.MachineryError("GenRst.tla: a wrapper that skips the run on an unchanged fingerprint no longer violates C19_TreeIsCurrent")
+    regen_layer(run, "cmake")
     run.assumptions += ["arguments containing ';' (CMake list splitting) are excluded",
                         "CMake 3.25 script mode (cmake -P) stands for the configure step"]
     return ("TLC checks C19_Argv (the argument vector cminx_gen_rst builds reads back as input, -o output, the extra "
@@ -404,6 +419,7 @@ def c01(run):
         doc_tlc(run, "C01", "IndBig", "NoFirst", "Bodies2x2full", "BothLeaders", run.seed, 11)
         doc_tlc(run, "C01", "IndBig", "NoFirst", "Bodies1x4", "Hash", run.seed, 7)
         doc_tlc(run, "C01", "IndSmall", "NoFirst", "Bodies3x1", "BothLeaders", run.seed, 3)
+    regen_layer(run, "cli")       # the doc lines of the sources as they are now, also after a back-dated edit
     import docclean as _dc
     _dc.big_file_case(run)
     _dc.twin_cases(run)
@@ -661,6 +677,7 @@ def c10(run):
         run.add_tlc("MC_C10(Dev=Current)", res)
     valuesh.replay(run, res.lines.get("BEH", []), run.seed)
     valuesh.crlf_cases(run)
+    valuesh.twin_cases(run)
     run.assumptions += ["argument values without line breaks (three fixed CRLF cases with values that span lines aside); option() with 2 or 3 arguments; set() with a name",
                         "help text and default of an option are compared as written (quotes included)"]
     return ("TLC enumerates set() with 0..n values and option() with/without default over 15 argument texts (identifier, "
